@@ -378,6 +378,11 @@ pub enum Tamper {
     GraftForeignSubProof { at: u16, which: u16, replace: bool },
     LeafDupPosition { at: u16, leaf: u16, seed: u64, fake_first: bool },
     LeafAdd { at: u16, seed: u64 },
+    /// a proven leaf is listed a SECOND time in the proof (same position, same value: the Merkle verification tolerates
+    /// it) and a forged item is added to the reported items (counts match again, every proof leaf is a reported item)
+    LeafDupIdenticalAddItem { at: u16, leaf: u16, seed: u64, replace: bool },
+    /// the letter case of a hash of a reported item is changed (and nothing else)
+    HashCase { at: u16, item: u16, field: Field, upper_all: bool },
     LeafReplace { at: u16, leaf: u16, seed: u64 },
     SiblingBoundaryMove { at: u16, pair: u16, k: i8 },
     ProofSize { at: u16, sub: bool, edit: NumEdit },
@@ -930,6 +935,52 @@ fn apply(m: &mut Value, fmt: &mut Fmt, t: &Tamper, cx: &TamperCtx) -> bool {
                 items.push(it);
             }
         }
+        Tamper::LeafDupIdenticalAddItem { at, leaf, seed, replace } => {
+            let it = fake_item(f, seed, cx.h);
+            let ok = with_proof(m, f, at, |pv| {
+                let Some(holder) = leaf_holder_mut(pv, leaf) else { return false };
+                let Some(leaves) = holder["inner_leaves"].as_array_mut() else { return false };
+                if leaves.is_empty() {
+                    return false;
+                }
+                let i = pick_index(leaf.rotate_left(5), leaves.len());
+                let copy = leaves[i].clone();
+                leaves.insert(i + 1, copy);
+                true
+            });
+            if !ok {
+                return false;
+            }
+            let Some(items) = items_mut(m, f, at) else { return false };
+            if replace && !items.is_empty() {
+                // the forged item takes the place of a genuine one that is not the duplicated leaf's (best effort)
+                let j = pick_index(leaf, items.len());
+                items[j] = it;
+            } else {
+                items.push(it);
+            }
+        }
+        Tamper::HashCase { at, item, field, upper_all } => {
+            let Some(key) = field_key(f, field) else { return false };
+            let Some(items) = items_mut(m, f, at) else { return false };
+            if items.is_empty() {
+                return false;
+            }
+            let i = pick_index(item, items.len());
+            let target = if key.is_empty() { &mut items[i] } else { &mut items[i][key] };
+            let Some(sv) = target.as_str().map(|x| x.to_string()) else { return false };
+            let changed: String = if upper_all {
+                sv.to_uppercase()
+            } else {
+                // the first letter only
+                let mut done = false;
+                sv.chars().map(|ch| if !done && ch.is_ascii_lowercase() { done = true; ch.to_ascii_uppercase() } else { ch }).collect()
+            };
+            if changed == sv {
+                return false;
+            }
+            *target = Value::from(changed);
+        }
         Tamper::LeafAdd { at, seed } => {
             let it = fake_item(f, seed, cx.h);
             let Some(lb) = leaf_of(f, &it) else { return false };
@@ -1150,7 +1201,7 @@ fn client_flow(fmt: Fmt, m: &Value, cert: &CertificateMessage) -> Flow {
         Fmt::Legacy => {
             let Ok(msg) = serde_json::from_value::<CardanoTransactionsProofsMessage>(m.clone()) else { return Flow::Undecodable };
             let Ok(v) = msg.verify() else { return Flow::VerifyRejected };
-            let pm = MessageBuilder::new().compute_cardano_transactions_proofs_message(cert, &v);
+            let pm = long_lived_builder(|b| b.compute_cardano_transactions_proofs_message(cert, &v));
             if !cert.match_message(&pm) {
                 return Flow::MessageMismatch;
             }
@@ -1163,7 +1214,7 @@ fn client_flow(fmt: Fmt, m: &Value, cert: &CertificateMessage) -> Flow {
         Fmt::V2Tx => {
             let Ok(msg) = serde_json::from_value::<CardanoTransactionsProofsV2Message>(m.clone()) else { return Flow::Undecodable };
             let Ok(v) = msg.verify() else { return Flow::VerifyRejected };
-            let pm = MessageBuilder::new().compute_cardano_transactions_proofs_v2_message(cert, &v);
+            let pm = long_lived_builder(|b| b.compute_cardano_transactions_proofs_v2_message(cert, &v));
             if !cert.match_message(&pm) {
                 return Flow::MessageMismatch;
             }
@@ -1177,7 +1228,7 @@ fn client_flow(fmt: Fmt, m: &Value, cert: &CertificateMessage) -> Flow {
         Fmt::V2Blk => {
             let Ok(msg) = serde_json::from_value::<CardanoBlocksProofsMessage>(m.clone()) else { return Flow::Undecodable };
             let Ok(v) = msg.verify() else { return Flow::VerifyRejected };
-            let pm = MessageBuilder::new().compute_cardano_blocks_proofs_message(cert, &v);
+            let pm = long_lived_builder(|b| b.compute_cardano_blocks_proofs_message(cert, &v));
             if !cert.match_message(&pm) {
                 return Flow::MessageMismatch;
             }
@@ -1608,7 +1659,8 @@ fn honest_stake(map: &BTreeMap<String, u64>, epoch: u64) -> Option<(CertificateM
     let cert = certificate("cert-csd", &pm, epoch + 1);
     let msg = CardanoStakeDistributionMessage {
         epoch: Epoch(epoch),
-        hash: "csd-hash".to_string(),
+        // the artifact's own identifier, unique per distribution as the aggregator's is (an altered response keeps it)
+        hash: format!("csd-{:016x}", map.iter().fold(epoch, |a, (k, v)| vcore::mix(vcore::mix(a, *v), k.bytes().fold(0u64, |h, b| vcore::mix(h, b as u64))))),
         certificate_hash: cert.hash.clone(),
         stake_distribution: map.clone(),
         ..CardanoStakeDistributionMessage::dummy()
@@ -1616,11 +1668,20 @@ fn honest_stake(map: &BTreeMap<String, u64>, epoch: u64) -> Option<(CertificateM
     Some((cert, pm, serde_json::to_value(&msg).ok()?))
 }
 
+/// One long-lived `MessageBuilder` per worker thread, as a client application keeps one: what it remembers from the
+/// responses it has already processed (honest ones first, in every case) must not help a later altered response.
+fn long_lived_builder<T>(f: impl FnOnce(&MessageBuilder) -> T) -> T {
+    thread_local! {
+        static BUILDER: MessageBuilder = MessageBuilder::new();
+    }
+    BUILDER.with(|b| f(b))
+}
+
 /// client flow for a Cardano stake distribution response: Some(reported map, epoch) when accepted
 fn stake_flow(m: &Value, cert: &CertificateMessage) -> Result<Option<(BTreeMap<String, u64>, u64)>, String> {
     catch(|| {
         let Ok(msg) = serde_json::from_value::<CardanoStakeDistributionMessage>(m.clone()) else { return Err("undecodable".to_string()) };
-        let Ok(pm) = MessageBuilder::new().compute_cardano_stake_distribution_message(cert, &msg) else { return Ok(None) };
+        let Ok(pm) = long_lived_builder(|b| b.compute_cardano_stake_distribution_message(cert, &msg)) else { return Ok(None) };
         if !cert.match_message(&pm) {
             return Ok(None);
         }
@@ -1757,7 +1818,7 @@ fn msd_flow(m: &Value, cert: &CertificateMessage) -> Result<bool, String> {
     use mithril_common::messages::MithrilStakeDistributionMessage;
     catch(|| {
         let Ok(msg) = serde_json::from_value::<MithrilStakeDistributionMessage>(m.clone()) else { return Err("undecodable".to_string()) };
-        let Ok(pm) = MessageBuilder::new().compute_mithril_stake_distribution_message(cert, &msg) else { return Ok(false) };
+        let Ok(pm) = long_lived_builder(|b| b.compute_mithril_stake_distribution_message(cert, &msg)) else { return Ok(false) };
         Ok(cert.match_message(&pm))
     })
     .unwrap_or_else(|p| Err(format!("panicked: {p}")))
@@ -1978,6 +2039,8 @@ fn tamper_strategy() -> impl Strategy<Value = Tamper> {
         4 => (r, r, any::<bool>()).prop_map(|(at, which, replace)| Tamper::GraftForeignSubProof { at, which, replace }),
         4 => (r, r, any::<u64>(), any::<bool>()).prop_map(|(at, leaf, seed, fake_first)| Tamper::LeafDupPosition { at, leaf, seed, fake_first }),
         2 => (r, any::<u64>()).prop_map(|(at, seed)| Tamper::LeafAdd { at, seed }),
+        4 => (r, r, any::<u64>(), any::<bool>()).prop_map(|(at, leaf, seed, replace)| Tamper::LeafDupIdenticalAddItem { at, leaf, seed, replace }),
+        4 => (r, r, field(), any::<bool>()).prop_map(|(at, item, field, upper_all)| Tamper::HashCase { at, item, field, upper_all }),
         2 => (r, r, any::<u64>()).prop_map(|(at, leaf, seed)| Tamper::LeafReplace { at, leaf, seed }),
         4 => (r, r, prop_oneof![-6i8..=-1, 1i8..=6]).prop_map(|(at, pair, k)| Tamper::SiblingBoundaryMove { at, pair, k }),
         1 => (r, any::<bool>(), num_edit()).prop_map(|(at, sub, edit)| Tamper::ProofSize { at, sub, edit }),
